@@ -205,7 +205,7 @@ T["T6"] = (doc(
 #     CHILD_OF_SHARED; parameters shared between containers
 T["T7"] = (doc(
     types=I("U4_T", 4) + I("U8_T", 8),
-    params=[("P1", "U4_T"), ("P2", "U4_T"), ("P3", "U8_T"), ("P4", "U8_T")],
+    params=[("P1", "U4_T"), ("P2", "U4_T"), ("P3", "U8_T"), ("P4", "U8_T"), ("P_UNUSED", "U8_T")],      # P_UNUSED is in no entry list
     root_entries=[],
     children=cont("OUTER1", ["P1", "@SHARED"], "CCSDSPacket", CMP("APID", "1"))
     + cont("SHARED", ["P2"], abstract="false")
@@ -214,6 +214,22 @@ T["T7"] = (doc(
     + cont("OUTER3", ["P4", "@OUTER2LIKE"], "CCSDSPacket", CMP("APID", "3"))
     + cont("OUTER2LIKE", ["P1", "@SHARED"])),
     6 + 2, "identity / inheritor consistency under forward references")
+
+
+# T8 (history / type-varying parameter): Q is an integer with ONLY a context calibrator (applies when N == 1), so its derived value is a float
+#     in some packets and the raw integer in others; children are selected by Comparisons on Q's CALIBRATED value; P's context calibrator and the
+#     lookup-sized binary B also test Q's calibrated value.  Meant for multi-packet streams through ONE definition object.
+T["T8"] = (doc(
+    types=I("N_T", 2) + I("Q_T", 6, "unsigned", CTXCAL((CMP("N", "1"), POLY((0.5, 0), (1, 1)))))
+    + I("P_T", 4, "unsigned", CTXCAL((CMP("Q", "20", "&gt;", cal="true"), POLY((100, 0), (1, 1)))))
+    + BIN("B_T", "<xtce:DiscreteLookupList>" + DL(4, CMP("Q", "3", "==", cal="true")) + DL(12, CMP("Q", "40", "&gt;=", cal="true")) + DL(8, CMP("Q", "0", "&gt;=", cal="true"))
+          + "</xtce:DiscreteLookupList>")
+    + I("U4_T", 4),
+    params=[("N", "N_T"), ("Q", "Q_T"), ("P", "P_T"), ("B", "B_T"), ("A4", "U4_T"), ("B4", "U4_T")],
+    root_entries=["N", "Q"],
+    children=cont("KLO", ["P", "A4"], "CCSDSPacket", CMP("Q", "10", "&lt;", cal="true"))
+    + cont("KHI", ["B", "B4"], "CCSDSPacket", CMP("Q", "10", "&gt;=", cal="true"))),
+    6 + 2, "KLO: 8 + 8 bits; KHI: 8 + {4,8,12} + 4 bits")
 
 
 def bundled(name):
